@@ -319,6 +319,11 @@ def write_evidence(ctx, level, violations):
         "explanation": "; ".join(ctx.notes),
     }
     cov.update(ctx.extra)
+    if level == "proof" and not cov["discharged"]:
+        # nothing was proved on this run (a proof obligation or the build broke): what the run did is the search for a
+        # failing input; say so instead of claiming a proof level the schema (rightly) refuses with 0 discharged
+        level = "exploration"
+        cov["explanation"] = ("NO PROOF ON THIS RUN - broken obligations: " + "; ".join(ctx.proof["broken"][:5]) + ". " + cov["explanation"]).strip()
     ev = {
         "property_id": ctx.pid,
         "tier": ctx.tier,
